@@ -6,18 +6,13 @@ from pathlib import Path
 V = Path(__file__).resolve().parents[1]
 d = V / "seeded" / sys.argv[1]
 pids = sys.argv[2:] or [sys.argv[1].split("-")[0]]
-# While worker sub-agents build from /repo the patch is applied to a private copy of /repo's working tree and the
-# checks are pointed at it with VERIF_REPO (engine/core.py); equivalent to `git -C /repo apply` + `checkout -- .`.
-import os, shutil
-COPY = Path(f"/var/tmp/seedrepo.{os.getpid()}")
-subprocess.run(["rsync", "-a", "--exclude", "_build", "--exclude", ".git", "/repo/", str(COPY) + "/"], check=True)
-subprocess.run(["git", "apply", str(d / "patch.diff")], check=True, cwd=COPY)
-ENV = dict(os.environ, VERIF_REPO=str(COPY))
+assert subprocess.run(["git", "-C", "/repo", "status", "--porcelain"], capture_output=True, text=True).stdout.strip() == "", "/repo not clean"
+subprocess.run(["git", "-C", "/repo", "apply", str(d / "patch.diff")], check=True)
 res = {}
 saved = {p: (V / "evidence" / f"{p}.json").read_text() for p in pids if (V / "evidence" / f"{p}.json").exists()}
 try:
     for p in pids:
-        r = subprocess.run([str(V / "bin" / "check"), p, "--tier", "quick"], capture_output=True, text=True, cwd=V, env=ENV)
+        r = subprocess.run([str(V / "bin" / "check"), p, "--tier", "quick"], capture_output=True, text=True, cwd=V)
         vio = [l for l in r.stdout.splitlines() if l.startswith("VIOLATION")]
         whats = []
         for l in vio[:4]:
@@ -28,7 +23,7 @@ try:
                               "no_failing_input": l.rstrip().endswith("no-failing-input-found")})
         res[p] = {"exit": r.returncode, "violations": len(vio), "examples": whats}
 finally:
-    shutil.rmtree(COPY, ignore_errors=True)
+    subprocess.run(["git", "-C", "/repo", "checkout", "--", "."], check=True)
     for p, t in saved.items():       # evidence written against a patched tree is not evidence
         (V / "evidence" / f"{p}.json").write_text(t)
 meta_p = d / "meta.json"
